@@ -307,9 +307,18 @@ func c08Eval(r *harness.Run, entries []c08Entry, scope string, opt bool, sw map[
 					after = append(after, inl{name, body})
 					hasInline = true
 				} else {
-					refs = append(refs, fmt.Sprintf("LT%d_%d", i, j))
-					sb.WriteString(fmt.Sprintf("\t\t%s, %s: LT%d_%d\n", v, n, i, j))
-					tb.lines = append(tb.lines, fmt.Sprintf("\tmap_script_2 %s, %s, LT%d_%d", ev, en, i, j))
+					jj := j
+					if te.form == 0 && j >= 2 && len(e.table)%2 == 1 && i == 1 {
+						// (round 13) in tables of odd length that are the second entry of their statement, the third and later simple
+						// rows repeat row 0 or 1 exactly - var, value and script: a table lists every row it was given, repeated or not
+						jj = j % 2
+						n, en = fmt.Sprint(jj), fmt.Sprint(jj)
+					}
+					if name := fmt.Sprintf("LT%d_%d", i, jj); jj == j || !strings.Contains(strings.Join(refs, " ")+" ", name+" ") {
+						refs = append(refs, name)
+					}
+					sb.WriteString(fmt.Sprintf("\t\t%s, %s: LT%d_%d\n", v, n, i, jj))
+					tb.lines = append(tb.lines, fmt.Sprintf("\tmap_script_2 %s, %s, LT%d_%d", ev, en, i, jj))
 				}
 			}
 			tb.lines = append(tb.lines, "\t.2byte 0")
